@@ -147,6 +147,7 @@ impl<T: Send + Clone> BoundedAsyncSender<T> {
     BoundedSyncSender {
       shared,
       closed: AtomicBool::new(closed),
+      _not_sync: std::marker::PhantomData,
     }
   }
 }
